@@ -79,6 +79,8 @@ def shapes(tier):
         for i0 in range(0, len(first), 3):
             for i1 in range(0, len(rest), 9):
                 out.append(c02.build_shape([first[i0], rest[i1], rest[(i1 * 7 + i0) % len(rest)]]))
+    from .. import shapes as _shapes
+    out += _shapes.random_family(53, 15 if tier == 'quick' else 120, need_a=False, allow_trunc=False)
     good = []
     for sh in out:
         try:
